@@ -140,7 +140,14 @@ func runCase(et *efake.Etcd, out *cq.Out, seq int, dbs int, ws []write, kind str
 	}
 	pm := func(m proto.Message) []byte { b, _ := proto.Marshal(m); return b }
 	put(base+"database/db-info/1", pm(&pb.DatabaseInfo{Id: 1, Name: "default"}))
-	if dbs > 1 {
+	// the second database exists from the start (dbs = 2) or is created at a later phase (dbs = 20 + phase)
+	dbPhase := -1
+	if dbs == 2 {
+		dbPhase = 0
+	} else if dbs >= 20 {
+		dbPhase = dbs - 20
+	}
+	if dbPhase == 0 {
 		put(base+"database/db-info/2", pm(&pb.DatabaseInfo{Id: 2, Name: "db2"}))
 	}
 	fielded := map[int64]bool{}
@@ -168,6 +175,9 @@ func runCase(et *efake.Etcd, out *cq.Out, seq int, dbs int, ws []write, kind str
 		}
 	}
 	at := func(phase int) {
+		if phase == dbPhase && phase > 0 {
+			put(base+"database/db-info/2", pm(&pb.DatabaseInfo{Id: 2, Name: "db2"}))
+		}
 		for _, w := range ws {
 			if w.phase == phase {
 				do(w)
@@ -182,7 +192,8 @@ func runCase(et *efake.Etcd, out *cq.Out, seq int, dbs int, ws []write, kind str
 	}
 	cm := &fakeCM{DefaultChannelManager: &api.DefaultChannelManager{}}
 	r, err := reader.NewCollectionReader("task1", cm, &stepOp{MetaOp: op, at: at}, nil, nil,
-		func(db *model.DatabaseInfo, c *pb.CollectionInfo) (bool, bool) { return false, true },
+		// the task selects both databases by name
+		func(db *model.DatabaseInfo, c *pb.CollectionInfo) (bool, bool) { return false, db.Name == "default" || db.Name == "db2" },
 		config.ReaderConfig{Retry: config.RetrySettings{RetryTimes: 2, InitBackOff: 1, MaxBackOff: 1}})
 	if err != nil {
 		panic(err)
